@@ -279,7 +279,12 @@ ALLOWED_AXIOMS = {
     "Coq.Logic.ProofIrrelevance.proof_irrelevance",
     "Coq.Logic.Eqdep.Eq_rect_eq.eq_rect_eq",
     "Coq.Logic.JMeq.JMeq_eq",
+    # the axioms of the standard library's real numbers (Flocq / Reals: C06's binary32 analysis)
+    "Coq.Reals.ClassicalDedekindReals.sig_forall_dec",
+    "Coq.Reals.ClassicalDedekindReals.sig_not_dec",
 }
+# Print Assumptions prints the shortest unambiguous name: compare on the last component
+ALLOWED_AXIOM_NAMES = {a.rsplit(".", 1)[-1] for a in ALLOWED_AXIOMS}
 
 
 def coq_assumptions(prop):
@@ -506,7 +511,7 @@ def proof_status(ctx, prop):
             if a is None:
                 bad.append(t + ": not checked")
                 continue
-            extra = [x for x in a if x not in ALLOWED_AXIOMS]
+            extra = [x for x in a if x.rsplit(".", 1)[-1] not in ALLOWED_AXIOM_NAMES]
             if extra:
                 bad.append(t + ": depends on " + ",".join(extra))
             else:
